@@ -249,6 +249,16 @@ class SimSocket(object):
         self.net.log.append(('send', self.server.index, bytes(data)))
         return len(data)
 
+    def sendall(self, data):
+        # (a real socket has it; the library is free to use it)
+        self.send(data)
+
+    def getpeername(self):
+        return ('127.0.0.1', 25565)
+
+    def getsockname(self):
+        return ('127.0.0.1', 50000)
+
     def recv(self, n):
         return self.server.stream.read(n)
 
